@@ -63,11 +63,11 @@ def run_tlc(item, wd, workers=4, cap=1800, simulate=None):
     sd = os.path.join(wd, 'mc-' + item['name']); os.makedirs(sd, exist_ok=True)
     for f in ('DbftNode.tla', item['module'] + '.tla'):
         shutil.copy(os.path.join(vlib.VERIF, 'spec', f), sd)
-    cfg = item['cfg'] if simulate else item['cfg'].replace('Emit = FALSE', 'Emit = TRUE')   # carry the schedule (hidden by VIEW)
+    cfg = item['cfg'] if (simulate and not simulate.get('dump')) else item['cfg'].replace('Emit = FALSE', 'Emit = TRUE')   # carry the schedule (hidden by VIEW)
     open(os.path.join(sd, 'mc.cfg'), 'w').write(cfg)
     cex = os.path.join(sd, 'cex.json')
     cmd = ['java', '-Xmx8g', '-Xss256m', '-XX:+UseParallelGC', '-cp', vlib.JAVA_CP, 'tlc2.TLC', '-workers', str(workers),
-           '-metadir', os.path.join(sd, 'md'), '-config', 'mc.cfg'] + ([] if simulate else ['-dumpTrace', 'json', cex])
+           '-metadir', os.path.join(sd, 'md'), '-config', 'mc.cfg'] + ([] if (simulate and not simulate.get('dump')) else ['-dumpTrace', 'json', cex])
     if simulate:
         cmd += ['-simulate', 'num=%d' % simulate['num'], '-depth', str(simulate['depth']), '-seed', str(simulate['seed'])]
     cmd += [item['module'] + '.tla']
@@ -82,6 +82,10 @@ def run_tlc(item, wd, workers=4, cap=1800, simulate=None):
     mm = re.findall(r'(\d[\d,]*) states generated.*?(\d[\d,]*) distinct states found', out)
     if mm:
         res['generated'], res['distinct'] = int(mm[-1][0].replace(',', '')), int(mm[-1][1].replace(',', ''))
+    sm = re.findall(r'Progress: (\d+) states checked, (\d+) traces generated', out)
+    if sm:
+        res['generated'], res['traces'] = int(sm[-1][0]), int(sm[-1][1])
+        res['distinct'] = res['distinct'] or res['generated']
     dm = re.search(r'depth of the complete state graph search is (\d+)', out)
     if dm:
         res['depth'] = int(dm.group(1))
@@ -99,8 +103,42 @@ def run_tlc(item, wd, workers=4, cap=1800, simulate=None):
     elif not timed_out and not simulate:
         shutil.rmtree(sd, ignore_errors=True)
         raise Infra('TLC failed on %s:\n%s' % (item['name'], out[-2500:]))
-    res['stdout'] = out if simulate else ''
+    res['stdout'] = out if (simulate and not simulate.get('dump')) else ''
     shutil.rmtree(sd, ignore_errors=True)
+    return res
+
+def net_cfg(name, byz=(2,), h=2, maxview=1, amev=False, dev=True, weaken=(), invs=('Agreement',), n=4, maxsteps=60):
+    b = lambda v: 'TRUE' if v else 'FALSE'
+    txt = ('SPECIFICATION Spec\nCONSTANTS\n  N = %d\n  H = %d\n  MaxView = %d\n  Byz = {%s}\n  AmevOn = %s\n  DevEarlyCommitUnverified = %s\n'
+           '  Weaken = {%s}\n  Emit = FALSE\n  EmitLen = 0\n  MaxSteps = %d\nCONSTRAINT Bound\nVIEW View\nINVARIANTS %s\nCHECK_DEADLOCK FALSE\n'
+           % (n, h, maxview, ', '.join(str(x) for x in byz), b(amev), b(dev), ', '.join('"%s"' % w for w in weaken), maxsteps, ' '.join(invs)))
+    return dict(name=name, module='MC_Net', cfg=txt)
+
+def design_net(tier, wd, vh, seed=1):
+    """Closed model (C01): random simulation of spec/MC_Net.tla. The faithful model with the KF-1 deviation switched on must
+    exhibit the known fork (and it is executed on real nodes); with the deviation switched off no fork may be found."""
+    num, cap = (6000, 600) if tier == 'quick' else (400000, 3000)
+    runs = [
+        (net_cfg('net-kf1-regression', byz=(2,), maxview=0, dev=True), dict(num=400000, depth=40, seed=seed, dump=True), 300),
+        (net_cfg('net-nodev-byz-primary0', byz=(2,), dev=False, invs=('Agreement', 'Certificates')), dict(num=num, depth=45, seed=seed + 1, dump=True), cap),
+        (net_cfg('net-nodev-byz-primary1', byz=(1,), dev=False, invs=('Agreement', 'Certificates')), dict(num=num, depth=45, seed=seed + 2, dump=True), cap),
+        (net_cfg('net-nodev-amev', byz=(2,), dev=False, amev=True, invs=('Agreement',)), dict(num=num, depth=45, seed=seed + 3, dump=True), cap),
+    ]
+    if tier != 'quick':
+        runs += [(net_cfg('net-nodev-n7', byz=(2, 1), n=7, dev=False, invs=('Agreement',)), dict(num=num, depth=60, seed=seed + 4, dump=True), cap),
+                 (net_cfg('net-nodev-honest', byz=(), dev=False, invs=('Agreement', 'Certificates')), dict(num=num, depth=45, seed=seed + 5, dump=True), cap)]
+    def one(x):
+        it, sim, cap = x
+        r = run_tlc(it, wd, workers=3, cap=cap, simulate=sim)
+        r.pop('stdout', None)
+        return r
+    with ThreadPoolExecutor(max_workers=5) as ex:
+        res = list(ex.map(one, runs))
+    for r in res:
+        if r.get('violated') and r.get('schedule') and vh:
+            viols, bf, tf = replay_schedule(r['schedule'], vh, wd, r['name'])
+            r['replayed_on_real_code'] = {'real_formula_failures': sorted({(v['prop'], v['formula'], v['tag']) for v in viols}), 'behaviour': bf, 'trace': tf}
+        r.pop('schedule', None)
     return res
 
 def spec_hash():
